@@ -37,6 +37,7 @@ package manifest
 //@   ensures [same-id-epoch-state] result.ID == meta.ID && result.Epoch.Version == meta.Epoch.Version && result.Epoch.ConfVersion == meta.Epoch.ConfVersion && uint8(result.State) == uint8(meta.State)
 //@   ensures [same-start-key] beq(result.StartKey, meta.StartKey)
 //@   ensures [same-end-key] beq(result.EndKey, meta.EndKey)
+//@   tag ghost-pure
 //@   modifies nothing
 
 // Snapshot of the raft log pointers (a copy of the map): trusted, writes nothing.
